@@ -604,6 +604,26 @@ func init() {
 		},
 	})
 
+	// ---------------------------------------------------------------- C22
+	register(&checkSpec{
+		ID:   "C22",
+		Rule: "trees built programmatically without positions and without ParenExpr nodes from 12 shape families (binary operators nested left, right, on both sides and three deep; unary over binary; unary operands of binary operators; unary over unary; pointer indirection; selector, index, call, slice, type assertion and error-wrap on a binary or unary operand; error-wrap defaults; lambda bodies; command-style call whose first argument needs parentheses; range expression operands); every binary operator is a token value the solver enumerates over everything the real Token.Precedence() accepts, every unary operator over {+ - ! ^ & <-}; the real printer prints the tree, the real parser parses the text, and the parsed tree without its ParenExpr nodes must have the signature of the original (generated from the current ast package)",
+		Assumptions: []string{
+			"bound: the listed shape families (depth <= 3, identifiers as leaves); statements other than expression, assignment and for-in are not synthesized",
+			"the token values are solver-enumerated selectors (as in C33): the content of the check is the family of operator combinations, decided per combination by executing the real printer and parser",
+		},
+		Harnesses: []harnessSpec{
+			{Name: "VxC22", Pkg: "github.com/goplus/xgo/printer", Files: []string{"c22/c22.go", "gen:astkinds:ast"},
+				Quick: map[string]int{}, Variants: func() []map[string]int {
+					var v []map[string]int
+					for sh := 0; sh <= 11; sh++ {
+						v = append(v, map[string]int{"S": sh})
+					}
+					return v
+				}(), MaxSteps: 10_000_000},
+		},
+	})
+
 	// ---------------------------------------------------------------- C19 / C20 / C21
 	register(&checkSpec{
 		ID:   "C19",
